@@ -33,6 +33,14 @@ import (
 
 const txPerCase = 20
 
+// knownLeadingEmpty is the ONE key of one specific defect: goloop's list
+// serializer writes the "." separator only when its buffer is not empty, so
+// list elements that serialize to the empty string vanish while they lead the
+// list (["","a"] hashes like ["a"]). The key is used only when goloop's id is
+// exactly the id of the phrase with that behaviour re-created (quirkTxID), or
+// when two transactions collide exactly because of it.
+const knownLeadingEmpty = "id.list-leading-empty-string-dropped"
+
 func init() {
 	ev.Register(&ev.Prop{
 		ID:    "C12",
@@ -89,6 +97,7 @@ type txCase struct {
 	sigRSV   []byte
 	sigValid bool
 	refID    []byte // nil for class 2 until the first parse
+	gotID    []byte // the id goloop gave the unchanged transaction (first JSON parse)
 	phrase   string
 }
 
@@ -212,6 +221,9 @@ func chain(c *ev.Ctx, t *txCase, style string, text []byte) bool {
 	if err != nil {
 		c.Violation("parse.json-rejected."+classKey(t), wit("json", err.Error()))
 		return false
+	}
+	if t.gotID == nil {
+		t.gotID = append([]byte(nil), tx0.ID()...)
 	}
 	ok = inspect(c, t, tx0, "json", wit) && ok
 	c.Count("stage_json", 1)
@@ -418,7 +430,7 @@ func inspect(c *ev.Ctx, t *txCase, tx transaction.Transaction, stage string, wit
 		case t.class == 2:
 			bad("id.changes-across-representations."+stageKind, "id "+hex.EncodeToString(id))
 		case bytes.Equal(id, quirkTxID(t.tx)):
-			bad("id.differs-from-reference.list-leading-empty-string", "id "+hex.EncodeToString(id))
+			bad(knownLeadingEmpty, "id "+hex.EncodeToString(id))
 		default:
 			bad("id.differs-from-reference."+stageKind+"."+classKey(t), "id "+hex.EncodeToString(id))
 		}
@@ -521,6 +533,10 @@ func change(c *ev.Ctx, r *rand.Rand, t *txCase, other *sig.Key) {
 		return
 	}
 	c.Eval(1)
+	idA := t.gotID
+	if idA == nil {
+		idA = t.refID
+	}
 	pa, pb := sig.Plain(t.tx), sig.Plain(m)
 	if pa == pb {
 		c.Count("change_noop", 1)
@@ -535,7 +551,7 @@ func change(c *ev.Ctx, r *rand.Rand, t *txCase, other *sig.Key) {
 	}
 	idB := append([]byte(nil), tx.ID()...)
 	wit := func(what string) map[string]interface{} {
-		w := map[string]interface{}{"change": name, "what": what, "a": pa, "b": pb, "id_a": hex.EncodeToString(t.refID), "id_b": hex.EncodeToString(idB), "phrase_a": t.phrase}
+		w := map[string]interface{}{"change": name, "what": what, "a": pa, "b": pb, "id_a": hex.EncodeToString(idA), "reference_id_a": hex.EncodeToString(t.refID), "id_b": hex.EncodeToString(idB), "phrase_a": t.phrase}
 		return w
 	}
 	short := strings.TrimPrefix(name, "data.")
@@ -545,7 +561,7 @@ func change(c *ev.Ctx, r *rand.Rand, t *txCase, other *sig.Key) {
 	if t.class == 2 || m.Ambiguous() {
 		// no reference phrase: only the changes whose effect does not depend on the open parts
 		if strings.HasPrefix(name, "field-digit") || name == "from-other" || name == "to-prefix" || name == "swap-from-to" {
-			if bytes.Equal(idB, t.refID) {
+			if bytes.Equal(idB, idA) {
 				c.Violation("change.keeps-id."+short, wit("a changed signed field left the id unchanged"))
 			} else {
 				c.Count("change_id_differs", 1)
@@ -558,7 +574,7 @@ func change(c *ev.Ctx, r *rand.Rand, t *txCase, other *sig.Key) {
 		w := wit("id of the changed transaction differs from the reference")
 		w["phrase_b"] = phB
 		if bytes.Equal(idB, quirkTxID(m)) {
-			c.Violation("id.differs-from-reference.list-leading-empty-string", w)
+			c.Violation(knownLeadingEmpty, w)
 		} else {
 			c.Violation("id.differs-from-reference.changed."+short, w)
 		}
@@ -568,16 +584,16 @@ func change(c *ev.Ctx, r *rand.Rand, t *txCase, other *sig.Key) {
 		// an equivalence of the format itself (e.g. [""] and [])
 		c.Count("change_same_phrase_same_id", 1)
 		c.Count("equiv_"+short, 1)
-		if !bytes.Equal(idB, t.refID) {
+		if !bytes.Equal(idB, idA) {
 			c.Violation("change.equivalent-forms-different-id."+short, wit("same reference phrase, different id"))
 		}
 		return
 	}
-	if bytes.Equal(idB, t.refID) {
+	if bytes.Equal(idB, idA) {
 		w := wit("a changed signed field left the id unchanged")
 		w["phrase_b"] = phB
 		if bytes.Equal(quirkTxID(m), quirkTxID(t.tx)) {
-			c.Violation("change.keeps-id.list-leading-empty-string", w)
+			c.Violation(knownLeadingEmpty, w)
 		} else {
 			c.Violation("change.keeps-id."+short, w)
 		}
